@@ -548,7 +548,9 @@ impl Monitor for C19 {
                     };
                     pats.push(p);
                 }
-                let mc = *rng.pick(&[usize::MAX, usize::MAX, 0, 1, 2]);
+                // the masking threshold: none, tiny, and values around the number of q-grams of the text
+                let nq = n.saturating_sub(q as usize);
+                let mc = *rng.pick(&[usize::MAX, usize::MAX, 0, 1, 2, nq, nq + 1, nq.saturating_sub(1), rng.clone().usize(n + 2)]);
                 self.qgram_index_case(ctx, rng, asize, q, &text, &pats, mc);
             }
             4 | 5 => self.codes_case(ctx, rng),
